@@ -238,3 +238,76 @@ impl LruM {
         ev
     }
 }
+
+// ---------------------------------------------------------------------------------------------
+// segmented LRU (C07)
+
+#[derive(Clone, Copy)]
+pub struct SlruM {
+    pub pcap: usize,
+    pub tcap: usize,
+    /// probationary
+    pub p: ML,
+    /// protected
+    pub t: ML,
+}
+
+impl SlruM {
+    pub fn val(&self, k: u8) -> Option<u8> {
+        match self.t.val(k) {
+            Some(v) => Some(v),
+            None => self.p.val(k),
+        }
+    }
+    pub fn has(&self, k: u8) -> bool {
+        self.t.has(k) || self.p.has(k)
+    }
+    /// moves a probationary entry to the MRU end of protected, demoting protected's LRU to the
+    /// MRU end of probationary when protected is full (never evicting).
+    fn promote(&mut self, k: u8) {
+        let (pk, pv) = {
+            let i = self.p.find(k).unwrap();
+            self.p.remove_at(i)
+        };
+        if self.t.n >= self.tcap {
+            let (dk, dv) = self.t.pop_back().unwrap();
+            self.p.push_front(dk, dv);
+        }
+        self.t.push_front(pk, pv);
+    }
+    /// get / get_mut
+    pub fn access(&mut self, k: u8) -> Option<u8> {
+        if let Some(v) = self.t.touch(k) {
+            return Some(v);
+        }
+        if let Some(v) = self.p.val(k) {
+            self.promote(k);
+            return Some(v);
+        }
+        None
+    }
+    pub fn put(&mut self, k: u8, v: u8) -> MPut {
+        if let Some(old) = self.t.touch(k) {
+            self.t.set_val(k, v);
+            return MPut::Update(old);
+        }
+        if let Some(old) = self.p.val(k) {
+            self.promote(k);
+            self.t.set_val(k, v);
+            return MPut::Update(old);
+        }
+        if self.p.n >= self.pcap {
+            let (ek, ev) = self.p.pop_back().unwrap();
+            self.p.push_front(k, v);
+            return MPut::Evicted(ek, ev);
+        }
+        self.p.push_front(k, v);
+        MPut::Put
+    }
+    pub fn remove(&mut self, k: u8) -> Option<u8> {
+        match self.p.remove_key(k) {
+            Some(v) => Some(v),
+            None => self.t.remove_key(k),
+        }
+    }
+}
